@@ -18,22 +18,25 @@ import (
 type Scenario struct {
 	Name           string        `json:"name"`
 	Cfg            hdr.Config    `json:"config"`
-	N              int           `json:"max_submissions"`          // bound on submissions of new headers
-	M              int           `json:"max_maintenance"`          // bound on maintenance operations
-	Maint          []hdr.Op      `json:"maintenance_ops"`          // maintenance alphabet
-	Subs           int           `json:"max_subscribers"`          // bound on subscribe operations
-	Marks          int           `json:"max_marks"`                // bound on mark/unmark operations
-	Slots          []string      `json:"slots"`                    // child slots offered per parent (default a,b,H)
-	Lag            int           `json:"lagging_growth,omitempty"` // offer one growlag(Lag) operation on the genesis-only chain
-	Attach         []int         `json:"attach,omitempty"`         // base worlds: base heights (relative to base tip, <= 0) where forks may start
-	Probes         bool          `json:"probes"`                   // add duplicate / orphan submissions as operations
-	Grows          int           `json:"max_grow_ops,omitempty"`   // bound on "grow" operations (extend the best chain by GrowBy headers at once)
+	N              int           `json:"max_submissions"`                         // bound on submissions of new headers
+	M              int           `json:"max_maintenance"`                         // bound on maintenance operations
+	Maint          []hdr.Op      `json:"maintenance_ops"`                         // maintenance alphabet
+	Subs           int           `json:"max_subscribers"`                         // bound on subscribe operations
+	Marks          int           `json:"max_marks"`                               // bound on mark/unmark operations
+	Slots          []string      `json:"slots"`                                   // child slots offered per parent (default a,b,H)
+	Races          []int         `json:"concurrent_submitter_variants,omitempty"` // offer fullrace(variant) operations on the genesis-only chain with a subscriber
+	Lag            int           `json:"lagging_growth,omitempty"`                // offer one growlag(Lag) operation on the genesis-only chain
+	Attach         []int         `json:"attach,omitempty"`                        // base worlds: base heights (relative to base tip, <= 0) where forks may start
+	Probes         bool          `json:"probes"`                                  // add duplicate / orphan submissions as operations
+	Grows          int           `json:"max_grow_ops,omitempty"`                  // bound on "grow" operations (extend the best chain by GrowBy headers at once)
 	GrowBy         int           `json:"grow_by,omitempty"`
 	GrowSides      int           `json:"max_growside_ops,omitempty"` // bound on "growside" operations (extend the heaviest side leaf by GrowSideBy double-work headers)
 	GrowSideBy     int           `json:"growside_by,omitempty"`
-	OnlyTipParents int           `json:"only_tip_parents,omitempty"` // offer children only for the last k accepted headers (tall prefix chains)
-	ForeignProbes  bool          `json:"foreign_probes,omitempty"`   // offer the synthetic foreign split headers with unknown parents too
-	WorkProbe      bool          `json:"work_probe,omitempty"`       // add a submission with proof-of-work checking switched on
+	MarkOnlyKnown  bool          `json:"mark_only_known,omitempty"`       // marks: accepted headers only (no pre-empted or unknown hashes, no unmarking)
+	Faults         []int         `json:"storage_fault_at_call,omitempty"` // submissions reaching a multiple of 10000 are also offered with the k-th storage call failing
+	OnlyTipParents int           `json:"only_tip_parents,omitempty"`      // offer children only for the last k accepted headers (tall prefix chains)
+	ForeignProbes  bool          `json:"foreign_probes,omitempty"`        // offer the synthetic foreign split headers with unknown parents too
+	WorkProbe      bool          `json:"work_probe,omitempty"`            // add a submission with proof-of-work checking switched on
 	MaxTime        time.Duration `json:"-"`
 	oracles        []oracle
 }
@@ -112,6 +115,12 @@ func (sc *Scenario) enabled(w *hdr.World, hist []hdr.Op) []hdr.Op {
 					usedL = true
 				}
 				ops = append(ops, hdr.Op{K: "sub", L: l})
+				if len(sc.Faults) > 0 && (hdr.LabelHeight(l, w.Cfg.Base)%10000) == 0 {
+					// the submission that triggers the automatic clean, with a storage fault in it
+					for _, f := range sc.Faults {
+						ops = append(ops, hdr.Op{K: "sub", L: l, D: f})
+					}
+				}
 			}
 		}
 	}
@@ -143,7 +152,12 @@ func (sc *Scenario) enabled(w *hdr.World, hist []hdr.Op) []hdr.Op {
 		}
 	}
 	if countOps(hist, maintKinds...) < sc.M {
-		ops = append(ops, sc.Maint...)
+		for _, o := range sc.Maint {
+			if o.K == "reload" && o.L == "nosave" && !w.InSync() {
+				continue // a restart without Save is only offered while storage holds exactly the accepted headers
+			}
+			ops = append(ops, o)
+		}
 	}
 	if countOps(hist, "mark", "unmark", "markx") < sc.Marks {
 		for _, n := range w.Tree.Sorted() {
@@ -152,13 +166,13 @@ func (sc *Scenario) enabled(w *hdr.World, hist []hdr.Op) []hdr.Op {
 			}
 		}
 		// a header not seen yet (pre-empt): the lowest unused child of the latest accepted header
-		if len(parents) > 0 {
+		if len(parents) > 0 && !sc.MarkOnlyKnown {
 			l := parents[len(parents)-1] + "/a"
 			if !w.Submitted[l] && !w.IsMarkedLabel(l) {
 				ops = append(ops, hdr.Op{K: "mark", L: l})
 			}
 		}
-		if countOps(hist, "markx") == 0 {
+		if countOps(hist, "markx") == 0 && !sc.MarkOnlyKnown {
 			ops = append(ops, hdr.Op{K: "markx", D: 1})
 		}
 		for _, l := range w.MarkedLabels {
@@ -185,7 +199,12 @@ func (sc *Scenario) enabled(w *hdr.World, hist []hdr.Op) []hdr.Op {
 	if sc.Lag > 0 && countOps(hist, "growlag", "fullrace") == 0 && countOps(hist, "sub", "grow", "growside") == 0 {
 		ops = append(ops, hdr.Op{K: "growlag", D: sc.Lag})
 		if countOps(hist, "subscribe") > 0 {
-			ops = append(ops, hdr.Op{K: "fullrace"})
+			ops = append(ops, hdr.Op{K: "fullrace"}, hdr.Op{K: "fullrace", D: 1}, hdr.Op{K: "fullrace", D: 2})
+		}
+	}
+	if len(sc.Races) > 0 && countOps(hist, "fullrace", "sub") == 0 && countOps(hist, "subscribe") > 0 {
+		for _, d := range sc.Races {
+			ops = append(ops, hdr.Op{K: "fullrace", D: d})
 		}
 	}
 	if countOps(hist, "subscribe") < sc.Subs {
